@@ -67,6 +67,7 @@ def plan(tier, seed):
         rule=RULE,
         require=['big_histories', 'huge_histories', 'copies', 'source_unchanged_checks', 'target_checks',
                  'copy_vars_checks', 'targets_with_dynamic_reordering',
+                 'copies_after_target_changed',
                  'copy_vars_refusals'] +
                 ['entry_' + e for e in ENTRY],
         assumptions=['the target declares every variable in the support '
@@ -391,6 +392,42 @@ def sampled(ctx, spec):
                     tgt.bdd.decref(r)
         tgt.check('copy')
         ctx.counters['target_checks'] += 1
+        if not dynamic and rng.random() < 0.5:
+            # the target goes on being used between two copies from the
+            # same source: the first copies are released and collected
+            # there (directly, or by a swap or sifting), other functions
+            # take the freed node numbers, then the same roots are copied
+            # once more
+            gone = tgt.held[-len(tabs):]
+            del tgt.held[-len(tabs):]
+            for r, _t in gone:
+                tgt.bdd.decref(r)
+                tgt.ext[abs(r)] -= 1
+                if not tgt.ext[abs(r)]:
+                    del tgt.ext[abs(r)]
+            how = rng.randrange(3)
+            if how == 0 or len(tgt.bdd.vars) < 2:
+                tgt.bdd.collect_garbage()
+            elif how == 1:
+                i = rng.randrange(len(tgt.bdd.vars) - 1)
+                tgt.bdd.swap(i, i + 1)
+            else:
+                _b.reorder(tgt.bdd)
+            for _ in range(rng.randint(1, 4)):
+                t2 = random_table(rng, sp_t)
+                tgt.hold(build(tgt.bdd, t2, sp_t), t2)
+            entry2 = rng.choice([e for e in ENTRY if e != 'copy_bdds_from'])
+            info2 = dict(info, entry=entry2, second_copy_after=how)
+            for t, u in zip(tabs, roots):
+                tgt.pending_decref = None
+                r = do_copy(entry2, src, src_ab, u, tgt)
+                judge(ctx, entry2, sp_n, t, src, before, tgt, r,
+                      lambda x: sp_n.lift(x, sp_t), info2)
+                tgt.hold(r, sp_n.lift(t, sp_t))
+                if tgt.pending_decref is not None:
+                    tgt.bdd.decref(r)
+            tgt.check('copy-again')
+            ctx.counters['copies_after_target_changed'] += 1
         if dynamic:
             if tgt.bdd.configure()['reordering'] is not True:
                 raise Violation(entry, 'target-reordering-switched-off', info)
